@@ -177,6 +177,32 @@ def run_case(case):
         C["quadrature_checks"] += 1
         if ref is not None and abs(got - ref) > 1e-8 * max(1.0, abs(ref)):
             V.append(tt.viol("C20:gmrf-integrated:" + var, "GMRFGammaIntegrated() = %.12g, quadrature of GMRF x Gamma over the precision gives %.12g (%s, dim %d, shape %.4g rate %.4g)" % (got, ref, var, dim, a, b), **detail))
+        # the same prior with a batch of fields: each row against its own unbatched evaluation (which the quadrature above anchors)
+        if not V and not var.startswith("time-aware"):
+            Bf = int(rng.integers(2, 5))
+            rows = rng.normal(0, 2.0, (Bf, dim))
+            jb = dict(spec[-1])
+            jb["x"] = gm.param("gmrf.field", rows.tolist(), dtype="torch.float64")
+            try:
+                _, dicb = tt.load([dict(e) for e in spec[:-1]] + [jb])
+                vb = tt.as_np(dicb["gmrf"](), "C20:not-a-tensor:gmrf-integrated").reshape(-1)
+            except Exception as e:
+                from ..worker import _blame
+
+                if _blame(e) is None:
+                    raise
+                vb = None
+                C["batched_integrated_declined"] = 1
+            if vb is not None:
+                for r in range(Bf):
+                    j1 = dict(spec[-1])
+                    j1["x"] = gm.param("gmrf.field", rows[r].tolist(), dtype="torch.float64")
+                    _, dic1 = tt.load([dict(e) for e in spec[:-1]] + [j1])
+                    v1 = float(tt.as_np(dic1["gmrf"](), "C20:not-a-tensor:gmrf-integrated").reshape(-1)[0])
+                    C["batched_integrated_rows"] = C.get("batched_integrated_rows", 0) + 1
+                    if vb.shape[0] != Bf or abs(vb[r] - v1) > 1e-10 * max(1.0, abs(v1)):
+                        V.append(tt.viol("C20:gmrf-integrated:batched:" + var, "GMRFGammaIntegrated on a batch of %d fields of length %d: row %d gives %s, the same field alone %.12g" % (Bf, dim, r, vb[r] if r < len(vb) else None, v1), **detail))
+                        break
         nontrivial = dim >= 3
     elif kind == "coalescent-integrated":
         n = case["n"]
